@@ -285,24 +285,35 @@ def playback(ws, scratch, crate, h, log=None):
     # extract the generated tests from the modified source
     woven = open(os.path.join(ws, h.weave_into)).read()
     tests = []
+    run_names = []
     for n in names:
         i = woven.find("fn " + n)
         if i >= 0:
-            s = woven.rfind("#[test]", 0, i)
+            s0 = woven.rfind("/// Test generated for harness", 0, i)
+            s1 = woven.rfind("#[test]", 0, i)
+            st = s0 if (s0 >= 0 and s1 - s0 < 600) else s1
             toks_end = woven.find("\n}", i)
-            tests.append(woven[s:toks_end + 2])
+            txt = woven[st:toks_end + 2]
+            if "Check for `cover`" in txt:
+                continue  # satisfied cover points also get playback tests; they are not counterexamples
+            tests.append(txt)
+            run_names.append(n)
     res["test_text"] = "\n".join(tests) if tests else None
-    if not names:
+    res["test_names"] = run_names
+    if not run_names:
         res["output"] = out[-3000:]
         return res
-    cmd2 = ["cargo", "kani", "playback", "-Z", "concrete-playback", "-p", crate, "--", names[0]]
+    names = run_names
+    cmd2 = ["cargo", "kani", "playback", "-Z", "concrete-playback", "-p", crate, "--", "kani_concrete_playback_" + h.name]
     try:
         p2 = subprocess.run(cmd2, cwd=ws, env=env, stdout=subprocess.PIPE, stderr=subprocess.STDOUT, text=True,
                             timeout=900)
-        res["playback_ran"] = "running 1 test" in p2.stdout
-        res["reproduced"] = res["playback_ran"] and ("test result: FAILED" in p2.stdout)
-        tail = p2.stdout[-2500:]
-        res["output"] = tail
+        res["playback_ran"] = re.search(r"running \d+ test", p2.stdout) is not None
+        failed = [n for n in names if re.search(re.escape(n) + r" \.\.\. FAILED", p2.stdout)]
+        res["reproduced"] = bool(failed)
+        res["reproduced_tests"] = failed
+        m = re.search(r"---- .*? stdout ----.*?(?=\n\n|\Z)", p2.stdout, re.S)
+        res["output"] = (m.group(0)[:1500] + "\n...\n" if m else "") + p2.stdout[-1200:]
     except subprocess.TimeoutExpired:
         res["output"] = "playback run timed out"
     if log:
